@@ -7,6 +7,7 @@ import (
 	"hash/fnv"
 	"os"
 	"sort"
+	"strings"
 	"testing"
 	"time"
 
@@ -26,6 +27,50 @@ type Job struct {
 	Out      string `json:"out"`
 	Replay   string `json:"replay,omitempty"`
 	MaxViol  int    `json:"max_viol,omitempty"`
+	Known    []KnownSpec `json:"known,omitempty"`
+}
+
+// KnownSpec identifies one recorded known finding narrowly (see known_findings.json).
+type KnownSpec struct {
+	ID        string   `json:"id"`
+	Oracle    string   `json:"oracle"`
+	Sig       *string  `json:"sig,omitempty"`
+	SigPrefix *string  `json:"sig_all_frames_prefix,omitempty"`
+	Kinds     []string `json:"policy_kinds,omitempty"` // policy kinds the scenario must use
+}
+
+func (k *KnownSpec) matches(v *Violation, sc *Scenario) bool {
+	if k.Oracle != v.Oracle {
+		return false
+	}
+	if k.Sig != nil && *k.Sig != v.Sig {
+		return false
+	}
+	if k.SigPrefix != nil {
+		fr := strings.Split(v.Sig, "|")
+		if len(fr) == 0 {
+			return false
+		}
+		for _, f := range fr {
+			if !strings.HasPrefix(strings.TrimSpace(f), *k.SigPrefix) {
+				return false
+			}
+		}
+	}
+	for _, kind := range k.Kinds {
+		used := false
+		for _, st := range sc.Stacks {
+			for _, pi := range st {
+				if sc.Policies[pi].Kind == kind {
+					used = true
+				}
+			}
+		}
+		if !used {
+			return false
+		}
+	}
+	return true
 }
 
 // ReplayFile is the replayable record of one violation.
@@ -78,6 +123,7 @@ type WorkerOut struct {
 	Samples    []any          `json:"samples"`
 	Violations []string       `json:"violations"` // replay file paths
 	Errors     []string       `json:"errors"`     // harness trouble (exit 2)
+	KnownHits  map[string]int `json:"known_hits"`
 	RaceReports int           `json:"race_reports"`
 }
 
@@ -135,7 +181,7 @@ func search(t *testing.T, job *Job) {
 		t.Fatalf("unknown property %s", job.Prop)
 	}
 	s := &searcher{t: t, job: job, p: p, hashes: map[uint64]struct{}{}, tier: Tier{Name: job.Tier, Thorough: job.Tier == "thorough"}}
-	s.out = &WorkerOut{Prop: job.Prop, Cov: map[string]int{}, Strategies: map[string]int{}, Sites: map[string]int{}}
+	s.out = &WorkerOut{Prop: job.Prop, Cov: map[string]int{}, Strategies: map[string]int{}, Sites: map[string]int{}, KnownHits: map[string]int{}}
 	cases := job.Cases
 	if cases == 0 {
 		cases = p.QuickCases
@@ -266,7 +312,20 @@ func (s *searcher) runOne(caseSeed uint64, sc *Scenario, cfg simrt.Config, base 
 	if len(s.out.Samples) < 3 && (nontrivial || s.out.Runs > 50) {
 		s.out.Samples = append(s.out.Samples, map[string]any{"case_seed": caseSeed, "scenario": sc, "strategy": stratNames[cfg.Strategy], "steps": res.Out.Steps, "choices": res.Out.Choices, "events": res.traceText(40)})
 	}
-	viol := append(cc.Viol, res.Log.Viol...)
+	var viol []Violation
+	for _, v := range append(cc.Viol, res.Log.Viol...) {
+		known := false
+		for i := range s.job.Known {
+			if s.job.Known[i].matches(&v, sc) {
+				s.out.KnownHits[s.job.Known[i].ID]++
+				known = true
+				break
+			}
+		}
+		if !known {
+			viol = append(viol, v)
+		}
+	}
 	if len(viol) == 0 {
 		return res
 	}
